@@ -1,4 +1,5 @@
 import Properties.C16
+import FlowCalModel.Generated
 /-!
 # C16 (continued) ‚Äî file-level consequences: TEXT-like segments that extend beyond the end of the file are refused,
 and reading a segment does not depend on bytes after it
@@ -93,5 +94,8 @@ theorem cut_inside_text_fails (file : Bytes) (n : Nat) (h : Header) (h58 : 58 ‚â
     (by simp only [List.length_take]; omega)
   simp only [he]
   exact ‚ü®err, rfl‚ü©
+
+/-- the keywords the model treats as required are the ones `FCSFile.__init__` indexes in the source now (regenerated on every run) -/
+theorem required_keywords_match_source : Generated.fileKeywords = FlowCal.File.requiredKeywords := rfl
 
 end FlowCal.C16
